@@ -169,6 +169,9 @@ def select(prop, tier, seed, allh):
                 h = dict(h)
                 h["focus"] = True
                 extra.append(h)
+        if len(extra) > 60:
+            # a widely shared file changed: thorough-tier (calibrated slow) queries would only eat the budget
+            extra = [h for h in extra if h["ann"].get("tier", "quick") != "thorough"]
         for h in out:
             if h["name"] in want:
                 h["focus"] = True
